@@ -64,10 +64,11 @@ type RigCfg struct {
 	RTCPWErrAt  int         `json:"rtcp_werr_at"` // the n-th RTCP write fails (0: never)
 	Reuse       bool        `json:"reuse"`        // callers reuse + scribble buffers (C13 variant B forces it)
 	DrainMs     int         `json:"drain_ms"`
-	Writers2    bool        `json:"writers2"`            // two writer goroutines per local stream / two readers per remote stream
-	WriterLast  bool        `json:"writer_last"`         // BindRTCPWriter is called after the streams are bound
-	RTCPStallUs int64       `json:"rtcp_stall_us"`       // the RTCP writer takes this long per call
-	StrictFB    bool        `json:"strict_fb,omitempty"` // congestion feedback never declares more received packets than it carries deltas for
+	Writers2    bool        `json:"writers2"`               // two writer goroutines per local stream / two readers per remote stream
+	WriterLast  bool        `json:"writer_last"`            // BindRTCPWriter is called after the streams are bound
+	RTCPStallUs int64       `json:"rtcp_stall_us"`          // the RTCP writer takes this long per call
+	LibStallUs  int64       `json:"lib_stall_us,omitempty"` // the next RTP writer takes this long for packets written by library goroutines (-1: yields)
+	StrictFB    bool        `json:"strict_fb,omitempty"`    // congestion feedback never declares more received packets than it carries deltas for
 }
 
 type RigOp struct {
@@ -523,6 +524,15 @@ func (rg *Rig) bindLocal(s int) interceptor.RTPWriter {
 				simrt.Sleep(us(call.op.Stall))
 			} else if call.op.Stall < 0 {
 				simrt.Yield("downstream")
+			}
+		}
+		if byLib && rg.cfg.LibStallUs != 0 {
+			// a slow transport: retransmissions, FEC and paced packets are still on their way for a while
+			e.Fault("stall_writer_lib")
+			if rg.cfg.LibStallUs > 0 {
+				simrt.Sleep(us(rg.cfg.LibStallUs))
+			} else {
+				simrt.Yield("downstream-lib")
 			}
 		}
 		o := &rigOut{stream: s, byLib: byLib, hdr: h.Clone(), payload: append([]byte{}, pl...)}
